@@ -106,19 +106,21 @@ class uamiv(PseudoNetCDFFile):
     def __var_get(self, key):
         units = get_uamiv_units(self.name, key, self._aerosol_names)
         spcnames = [sn.strip() for sn in self.spcnames]
+        ntimes = len(self.dimensions['TSTEP'])
+        nlays = len(self.dimensions['LAY'])
+        nrows = len(self.dimensions['ROW'])
+        ncols = len(self.dimensions['COL'])
         if self.name == 'EMISSIONS ':
             def constr(spc):
-                return self.getArray(
-                    nspec=spcnames.index(spc)).squeeze()[:, newaxis, :, :]
+                # squeeze() drops every axis of length one (a single step,
+                # row or column as well); restore the four axes by name
+                return self.getArray(nspec=spcnames.index(
+                    spc)).squeeze().reshape(ntimes, nlays, nrows, ncols)
 
             def decor(spc):
                 return dict(units=units, var_desc=spc,
                             long_name=spc.ljust(16))
         else:
-            ntimes = len(self.dimensions['TSTEP'])
-            nlays = len(self.dimensions['LAY'])
-            nrows = len(self.dimensions['ROW'])
-            ncols = len(self.dimensions['COL'])
 
             def constr(spc):
                 return self.getArray(nspec=spcnames.index(
